@@ -416,18 +416,19 @@ func (s *LegacyServer) Revocation(ctx context.Context, r *ClientRequest[oidc.Rev
 
 	var subject string
 	doDecrypt := true
-	if r.Data.TokenTypeHint != "access_token" {
-		userID, tokenID, err := s.provider.Storage().GetRefreshTokenInfo(ctx, r.Client.GetID(), r.Data.Token)
-		if err != nil {
-			// An invalid refresh token means that we'll try other things (leaving doDecrypt==true)
-			if !errors.Is(err, ErrInvalidRefreshToken) {
-				return nil, RevocationError(oidc.ErrServerError().WithParent(err))
-			}
-		} else {
-			r.Data.Token = tokenID
-			subject = userID
-			doDecrypt = false
+	// r.Data.TokenTypeHint is not evaluated: it may be wrong and must not narrow the search (RFC 7009, section 2.1).
+	// A token the storage knows as a refresh token is one, whatever the hint says; only other strings
+	// are tried as access tokens (an arbitrary string may well "decrypt" into something that looks like one).
+	userID, tokenID, err := s.provider.Storage().GetRefreshTokenInfo(ctx, r.Client.GetID(), r.Data.Token)
+	if err != nil {
+		// An invalid refresh token means that we'll try other things (leaving doDecrypt==true)
+		if !errors.Is(err, ErrInvalidRefreshToken) {
+			return nil, RevocationError(oidc.ErrServerError().WithParent(err))
 		}
+	} else {
+		r.Data.Token = tokenID
+		subject = userID
+		doDecrypt = false
 	}
 	if doDecrypt {
 		tokenID, userID, ok := getTokenIDAndSubjectForRevocation(ctx, s.provider, r.Data.Token)
